@@ -1,6 +1,9 @@
 mod broadcaster;
 mod sender;
 
+#[cfg(nexosim_verif)]
+pub(crate) use broadcaster::verif as verif_broadcaster;
+
 use std::fmt;
 
 use crate::model::Model;
